@@ -67,6 +67,9 @@ def build_domain(gd, d, rng):
     for t in d["transport"]:
         g.add_directed_edge(Variable("T_" + t), Variable(t))
     topo = c17.random_topo(RG.from_nx(g), rng)
+    if d.get("topo"):
+        # a recorded case names the topological order the domain was given (the answer may depend on it)
+        topo = [Variable(n) for n in d["topo"]]
     pop = Variable(d["population"])
     zs = [Variable(z) for z in sorted(Z)]
     form = sum(map(ord, "".join(sorted(Z)) + d["population"])) % 3  # the collection the policy variables come in
@@ -218,7 +221,8 @@ def replay(case):
     gd = case["graph"]
     gd = {"nodes": gd["nodes"], "di": gd["di"], "bi": gd["bi"]}
     f = lambda ev: [[c[0], [list(w) for w in c[1]], c[2]] for c in ev]  # noqa: E731
-    doms = [{"population": d["population"], "transport": d["transport"], "policy": d["policy"]} for d in case["domains"]]
+    doms = [{"population": d["population"], "transport": d["transport"], "policy": d["policy"],
+             **({"topo": d["topo"]} if d.get("topo") else {})} for d in case["domains"]]
     run_case(_C(), gd, doms, f(case["outcomes"]), f(case.get("conditions") or []), random.Random(0))
 
 
